@@ -39,7 +39,7 @@ def prepare_kani_scratch(modules, keep=False):
     open(lib, "w").write('#![cfg_attr(kani, recursion_limit = "1024")]\n' + open(os.path.join(scratch.REPO, "src/lib.rs")).read())
     scratch.append_crate_module(repo, "verif_stubs", open(os.path.join(VERIF, "contracts/kani/stubs.rs")).read())
     for m in modules:
-        scratch.append_child_module(repo, m.target, m.mod_name, m.text(), pub=(m.key in ("log", "table", "index", "column")))
+        scratch.append_child_module(repo, m.target, m.mod_name, m.text(), pub=(m.key in ("log", "table", "index", "column", "btree_mod")))
     kani.warm_target(repo)
     return d, repo
 
